@@ -16,7 +16,6 @@
  * @instance sv3_hb8_mid timeout=300 -DMAXSV=3 -DHB=8 -DBACKSLACK=8
  * @instance sv3_hb8 tier=thorough timeout=900 allowub=1 -DMAXSV=3 -DHB=8
  * @instance sv5_hb9 allowub=1 tier=thorough timeout=1800 memgb=12 -DMAXSV=5 -DHB=9
- * @instance sv9_hb6 allowub=1 tier=thorough timeout=1500 memgb=12 cbmc="--unwind 14" -DHB=6 -DMAXSV=9
  */
 #include "v.h"
 #include <string.h>
